@@ -173,6 +173,11 @@ def correspond(ctx):
         s_std.add(f"b64 b64sdec {hx(pb.b64s_encode(bs))}", lambda bs=bs: hx(pb.b64s_decode(pb.b64s_encode(bs))))
         s_std.add(f"b64 ab64dec {hx(pb.ab64_encode(bs))}", lambda bs=bs: hx(pb.ab64_decode(pb.ab64_encode(bs))))
         s_std.add(f"b64 ab64dec {hx(pb.b64s_encode(bs))}", lambda bs=bs: hx(pb.ab64_decode(pb.b64s_encode(bs))), "ab64dec-plus")
+        # libpass' copies of the decoders, on bytes and on str input
+        s_std.add(f"b64 ab64dec {hx(pb.ab64_encode(bs))}", lambda bs=bs: hx(ld.ab64_decode(ld.ab64_encode(bs))), "lp-ab64dec-bytes")
+        s_std.add(f"b64 ab64dec {hx(pb.ab64_encode(bs))}", lambda bs=bs: hx(ld.ab64_decode(ld.ab64_encode(bs).decode("ascii"))), "lp-ab64dec-str")
+        s_std.add(f"b64 b64sdec {hx(pb.b64s_encode(bs))}", lambda bs=bs: hx(ld.b64s_decode(ld.b64s_encode(bs))), "lp-b64sdec-bytes")
+        s_std.add(f"b64 b64sdec {hx(pb.b64s_encode(bs))}", lambda bs=bs: hx(ld.b64s_decode(ld.b64s_encode(bs).decode("ascii"))), "lp-b64sdec-str")
         s_std.add(f"b64 b32enc {hx(bs)}", lambda bs=bs: hx(pb.b32encode(bs).encode()))
         t = pb.b32encode(bs).encode()
         variants = [t, t.lower(), t.replace(b"B", b"8").replace(b"O", b"0"), t + b"=" * (-len(t) % 8)]
@@ -310,8 +315,26 @@ def search(ctx, broken, seeds):
             if sorted(offs) != list(range(len(offs))):
                 continue
             src = ctx.rng.randbytes(len(offs))
-            if e.decode_transposed_bytes(e.encode_transposed_bytes(src, offs), offs) != src:
-                return {"input": {"op": "transposed", "engine": name, "table": tn, "bytes": src.hex()}, "observed": "round trip differs", "expected": "identity"}
+            for src in (src, bytes(len(offs)), bytes([0]) + src[1:], src[:-1] + bytes([0])):
+                try:
+                    back = e.decode_transposed_bytes(e.encode_transposed_bytes(src, offs), offs)
+                except Exception as ex:  # noqa: BLE001
+                    return {"input": {"op": "transposed", "engine": name, "table": tn, "bytes": src.hex()}, "observed": type(ex).__name__ + ": " + str(ex)[:80], "expected": "identity"}
+                if back != src:
+                    return {"input": {"op": "transposed", "engine": name, "table": tn, "bytes": src.hex()}, "observed": "round trip differs", "expected": "identity"}
+    import libpass._utils.deprecated as ld
+
+    for n in list(range(0, 60)) * 4:
+        bs = ctx.rng.randbytes(n)
+        for form in (lambda t: t, lambda t: t.decode("ascii")):
+            for what, enc, dec in (("libpass ab64", ld.ab64_encode, ld.ab64_decode), ("libpass b64s", ld.b64s_encode, ld.b64s_decode)):
+                t = form(enc(bs))
+                try:
+                    got = dec(t)
+                except Exception as ex:  # noqa: BLE001
+                    return {"input": {"op": what + "_decode", "bytes": bs.hex(), "text": repr(t)}, "observed": type(ex).__name__ + ": " + str(ex)[:80], "expected": bs.hex()}
+                if got != bs:
+                    return {"input": {"op": what + "_decode", "bytes": bs.hex(), "text": repr(t)}, "observed": got.hex(), "expected": bs.hex()}
     for n in list(range(0, 100)) * 5:
         bs = ctx.rng.randbytes(n)
         for what, got, want in (
